@@ -98,6 +98,19 @@ def main() -> int:
     ctx.extra['theorems'] = pf['theorems']
     ctx.extra['print_assumptions'] = pf['assumptions']
 
+    # thorough tier: re-check the compiled property file and everything it depends on with the independent checker
+    if tier == 'thorough' and pf['ok'] and not os.environ.get('VERIF_NO_COQCHK'):
+        import subprocess
+        try:
+            r = subprocess.run(['bash', '-c', f'ulimit -v 12000000; timeout 1200 coqchk -silent -o -Q . MrVerif MrVerif.Properties.{prop}'],
+                               cwd=str(vlib.COQ), capture_output=True, text=True, timeout=1300)
+            out = (r.stdout + r.stderr)
+            ctx.extra['coqchk'] = {'exit': r.returncode, 'tail': out[-1500:]}
+            if r.returncode not in (0, 124, 137):
+                ctx.problem('proof', 'coqchk', None, 'coqchk rejects the compiled development: ' + out[-800:])
+        except Exception as e:  # noqa: BLE001
+            ctx.extra['coqchk'] = {'error': repr(e)}
+
     # ---- 2. translators / regenerated obligations (optional per property) ------------------------
     if hasattr(mod, 'translate'):
         try:
@@ -185,7 +198,7 @@ def main() -> int:
         'traces_validated_against_impl': ctx.traces_validated,
         'theorems': pf['theorems'], 'print_assumptions': pf['assumptions'],
         'input_distribution': ctx.distribution,
-        'known_findings_matched': sorted(ctx.known_hits), 'notes': ctx.notes,
+        'known_findings_matched': sorted(ctx.known_hits), 'notes': ctx.notes, 'coqchk': ctx.extra.get('coqchk'),
         'problems': [{'kind': p['kind'], 'family': p['family'], 'message': p['message'][:300]} for p in ctx.problems][:20],
     }
     cov.update(ctx.extra.get('coverage', {}))
